@@ -72,6 +72,7 @@ static void *rep_cb(void *ctx, UINT32 size, UINT32 esi)
 static of_status_t set_params(of_session_t *ses, int codec, UINT32 k, UINT32 r, UINT32 L, long p1, long p2)
 {
 	if (codec == 1) { of_rs_parameters_t p; memset(&p, 0, sizeof p); p.nb_source_symbols = k; p.nb_repair_symbols = r; p.encoding_symbol_length = L; return of_set_fec_parameters(ses, (of_parameters_t *)&p); }
+	if (codec == 2 && (p2 == 4 || p2 == 8)) { UINT16 m0 = (UINT16)p2; of_set_control_parameter(ses, OF_RS_CTRL_SET_FIELD_SIZE, &m0, sizeof m0); }   /* p2: field size set through the control parameter first */
 	if (codec == 2) { of_rs_2_m_parameters_t p; memset(&p, 0, sizeof p); p.nb_source_symbols = k; p.nb_repair_symbols = r; p.encoding_symbol_length = L; p.m = (UINT16)p1; return of_set_fec_parameters(ses, (of_parameters_t *)&p); }
 	if (codec == 3) { of_ldpc_parameters_t p; memset(&p, 0, sizeof p); p.nb_source_symbols = k; p.nb_repair_symbols = r; p.encoding_symbol_length = L; p.N1 = (UINT8)p1; p.prng_seed = (INT32)p2; return of_set_fec_parameters(ses, (of_parameters_t *)&p); }
 	{ of_2d_parity_parameters_t p; memset(&p, 0, sizeof p); p.nb_source_symbols = k; p.nb_repair_symbols = r; p.encoding_symbol_length = L; return of_set_fec_parameters(ses, (of_parameters_t *)&p); }
@@ -105,13 +106,25 @@ static unsigned long long state_digest(of_linear_binary_code_cb_t *cb)
 	return dg_h;
 }
 
+/* of_get_source_symbols_tab into a table that is NOT zeroed beforehand (an application may reuse its table): every entry holds a
+ * sentinel; an entry still holding it after a successful call was not written by the library (reported as '!'); when the call
+ * reports an error (the RS codecs before completion) the table is taken as empty */
+#define SENT ((void *)(uintptr_t)0x5)
+static int stale[MAXN];
+static void fetch_src_tab(of_session_t *dec, UINT32 k)
+{
+	UINT32 i; of_status_t st;
+	for (i = 0; i < k; i++) { src_tab[i] = SENT; stale[i] = 0; }
+	st = of_get_source_symbols_tab(dec, src_tab);
+	for (i = 0; i < k; i++) if (src_tab[i] == SENT) { src_tab[i] = NULL; stale[i] = (st == OF_STATUS_OK); }
+}
+
 static void print_masks(of_session_t *dec, int codec, UINT32 k, UINT32 n, int with_digest)
 {
 	UINT32 i;
-	memset(src_tab, 0, sizeof(void *) * k);
-	of_get_source_symbols_tab(dec, src_tab);
+	fetch_src_tab(dec, k);
 	fprintf(out, ":");
-	for (i = 0; i < k; i++) fputc(src_tab[i] ? '1' : '0', out);
+	for (i = 0; i < k; i++) fputc(stale[i] ? '!' : src_tab[i] ? '1' : '0', out);
 	fprintf(out, ":");
 	if (codec == 3 || codec == 5) {
 		of_linear_binary_code_cb_t *cb = (of_linear_binary_code_cb_t *)dec;
@@ -179,13 +192,24 @@ int main(void)
 		fprintf(out, " Y");
 		for (i = 0; i < n; i++) { if (i) fputc('.', out); for (j = 0; j < (UINT32)L; j++) fprintf(out, "%02x", ((unsigned char *)enc_tab[i])[j]); }
 		/* ---------------- decoder ---------------- */
-		if (of_create_codec_instance(&dec, (of_codec_id_t)codec, role == 3 ? OF_ENCODER_AND_DECODER : OF_DECODER, 0) != OF_STATUS_OK) { fprintf(out, " CREATE-FAILED\n"); continue; }
+		if (of_create_codec_instance(&dec, (of_codec_id_t)codec, role >= 3 ? OF_ENCODER_AND_DECODER : OF_DECODER, 0) != OF_STATUS_OK) { fprintf(out, " CREATE-FAILED\n"); continue; }
 		st = set_params(dec, codec, k, r, L, p1, p2);
 		fprintf(out, " Q%d", st);
 		if (st == OF_STATUS_OK) {
 			dec_ok = 1;
 			if (codec == 3) { int a = get_last_null(enc), b = get_last_null(dec); if (a == b) fprintf(out, " LN%d", a); else fprintf(out, " LNx"); }
 			if (cbmode) of_set_callback_functions(dec, src_cb, (codec == 3 || codec == 5) ? rep_cb : NULL, NULL);
+			if (role == 4) {
+				/* role 4: the OF_ENCODER_AND_DECODER session first serves as an encoder (the first repair symbols, into a private table;
+				 * they must be the codeword's), then decodes the block */
+				void **t2 = calloc(n, sizeof *t2); UINT32 nb = 1 + (UINT32)(seed % 3); int okb = 1;
+				if (nb > (UINT32)r) nb = r;
+				for (i = 0; i < n; i++) { t2[i] = malloc(L ? L : 1); if (i < (UINT32)k) memcpy(t2[i], enc_tab[i], L); else memset(t2[i], 0x77, L); }
+				for (i = k; i < k + nb; i++) if (of_build_repair_symbol(dec, t2, i) != OF_STATUS_OK || memcmp(t2[i], enc_tab[i], L)) okb = 0;
+				for (i = 0; i < n; i++) free(t2[i]);
+				free(t2);
+				fprintf(out, " ED%d", okb);
+			}
 			for (i = 0; i < n; i++) { recv_tab[i] = malloc(L ? L : 1); memcpy(recv_tab[i], enc_tab[i], L); avail_tab[i] = NULL; }
 			if (api == 0) {
 				for (i = 0; i < (UINT32)nesi; i++) {
@@ -216,11 +240,11 @@ int main(void)
 				print_masks(dec, codec, k, n, 0);
 			}
 			/* ---------------- verdict on the source table ---------------- */
-			memset(src_tab, 0, sizeof(void *) * k);
-			of_get_source_symbols_tab(dec, src_tab);
+			fetch_src_tab(dec, k);
 			fprintf(out, " E");
 			for (i = 0; i < (UINT32)k; i++) {
 				int c, okb;
+				if (stale[i]) { fputc('!', out); continue; }
 				if (!src_tab[i]) { fputc('.', out); continue; }
 				c = 'L';
 				for (j = 0; j < n; j++) if (src_tab[i] == recv_tab[j]) c = (j == i) ? 'R' : 'X';
